@@ -96,6 +96,8 @@ def c01(res, st, std_coq):
     sql_correspondence(res, cases)
     if res.pid == "C01":
         fragment_roundtrip_check(res, rnd, q)
+        type_correspondence(res, rnd, q)
+        type_roundtrip_check(res, rnd, q)
     what = {"C01": "parse -> SQL() -> parse is not stable", "C02": "SQL() drops, adds or moves a significant token"}[res.pid]
     report_oracle(res, res.pid, cases, what)
     res.add_cases(len(cases), len(set(cases)), [gens.case_lines(cases[:1]).strip()[:200], gens.case_lines(cases[-1:]).strip()[:200]])
@@ -427,6 +429,7 @@ def sampled(res, st, std_coq, extra_vo=()):
     res.add_cases(len(cases), len(set(cases)), [gens.case_lines(cases[:1]).strip()[:200], gens.case_lines(cases[-1:]).strip()[:200]])
     if have and pid == "C16":
         respell_fragment(res, rnd, q)
+        type_correspondence(res, rnd, q)
     if have and pid == "C10":
         recovery_correspondence(res, cases)
         type_recover_correspondence(res, rnd, q)
@@ -615,6 +618,32 @@ def type_recover_correspondence(res, rnd, q):
                    not bad and st["clean"] > 0 and st["recovered"] > 0, "\n".join("%r\n go:    %s\n model: %s" % b for b in bad[:3]))
     res.extra["type_recover_correspondence"] = dict(st, inputs=len(inputs), disagreements=len(bad))
     res.add_cases(len(inputs), st["clean"] + st["recovered"], [])
+
+
+def type_roundtrip_check(res, rnd, q):
+    """the hypotheses of type_roundtrip on real data: for every accepted type input x: the model's tree for x is well formed (wf_tyb) and the
+    tokens the real lexer produces for SQL(ParseType(x)) -- every '>>' read as two closing brackets -- agree with the spelling of that tree"""
+    inputs = gens.type_cases(rnd, q)
+    inp = "\n".join(hexs(x) for x in inputs) + "\n"
+    sq = vlib.run_lines(vlib.HARNESS, ["type-sql"], inp)
+    pairs = []
+    for x, l in zip(inputs, sq):
+        h = l.split(" => ", 1)[1].strip()
+        if h != "ERR":
+            pairs.append((x, unhex(h) if h != "-" else b""))
+    allstr = sorted(set([x for x, _ in pairs] + [s_ for _, s_ in pairs]))
+    toks = dict(zip(allstr, [l.split(" => ", 1)[1] for l in vlib.run_lines(vlib.HARNESS, ["expr-toks"], "\n".join(hexs(s_) for s_ in allstr) + "\n")]))
+    out = vlib.run_lines(vlib.DRIVER, ["type-c01"], "\n".join(toks[x] + " | " + toks[s_] for x, s_ in pairs) + "\n")
+    from collections import Counter
+    cnt = Counter(out)
+    diffs = [(x, s_, o) for (x, s_), o in zip(pairs, out) if o != "OK"]
+    for (x, s_, o) in diffs[:3]:
+        res.violation("the printed text of a type does not lex to the spelling of its tree (%s)" % o,
+                      {"kind": "c01-type", "entry": "ParseType", "input_hex": hexs(x), "sql": s_.decode(errors="replace")[:300], "verdict": o})
+    res.obligation("hypotheses of type_roundtrip hold on %d accepted type inputs (tree well formed; lex(SQL(tree)) == spelling of the tree)" % len(pairs),
+                   not diffs and cnt.get("OK", 0) > 0, str(diffs[:2]))
+    res.extra["type_roundtrip"] = {"inputs": len(inputs), "accepted": len(pairs), "verdicts": dict(cnt)}
+    res.add_cases(len(pairs), cnt.get("OK", 0), [])
 
 
 C10_TARGETED = [b"CAST(1 AS ARRAY<STRUCT<x y>>)", b"CAST(1 AS ARRAY<STRUCT<a INT64, b c d>>)", b"CAST(1 AS ARRAY<ARRAY<x y>>) + 1", b"CAST(1 AS STRUCT<x y>>)",
